@@ -305,3 +305,37 @@ def case_tiling(prog, path, optspec, kind="tile"):
             "impl": sx([1 if out == "accepted" else 0, ids.bound, nest2]),
             "changed": before != after, "refused": out == "refused",
             "desc": [cname, path, optspec]}
+
+
+# ---------------------------------------------------------------------------------------------
+# AlgTrans / LFRicAlgTrans: one nested transformation per `call invoke(...)`
+def alg_source(flags):
+    """a program with one invoke per flag; flag 0 gives an invoke the nested transformation refuses"""
+    lines = ["program algk", "  use kind_params_mod", "  use field_mod", "  use compute_cu_mod, only: compute_cu",
+             "  implicit none", "  type(r2d_field) :: cu_fld, p_fld, u_fld"]
+    for f in flags:
+        lines.append("  call invoke(compute_cu(cu_fld, p_fld, u_fld))" if f else "  call invoke(3)")
+    lines.append("end program algk")
+    return "\n".join(lines) + "\n"
+
+
+def case_alg(cname, flags, on_root):
+    from psyclone.domain.common.algorithm import AlgorithmInvokeCall
+    from psyclone.psyir.nodes import Call
+    prog = S.Program({"kind": "minif", "name": "algk", "source": alg_source(flags)}, "")
+    tree = prog.fresh()
+    before = S.snapshot(tree)
+    target = tree.root if on_root else tree.root.children[0]      # a node with a parent is refused by validate
+    path = [] if on_root else [0]
+    calls = [c for c in tree.root.walk(Call)]
+    out = _apply(S.trans_by_name(cname)(), (target,), None)
+    if out.startswith("error"):
+        return None
+    after = S.snapshot(tree)
+    raised = [isinstance(c, AlgorithmInvokeCall) for c in tree.root.walk(Call)]
+    if len(raised) != len(flags):
+        return None
+    return {"line": sx(["alg", MODE, on_root, list(flags)]),
+            "impl": sx([1 if out == "accepted" else 0, raised]),
+            "changed": before != after, "refused": out == "refused", "desc": [cname, path, None],
+            "program": prog.spec}
